@@ -180,7 +180,7 @@ HXcreate(int32 file_id, uint16 tag, uint16 ref, const char *extern_file_name, in
     filerec_t *file_rec;                       /* file record */
     accrec_t  *access_rec = NULL;              /* access element record */
     int32      dd_aid;                         /* AID for writing the special info */
-    hdf_file_t file_external;                  /* external file descriptor */
+    hdf_file_t file_external = NULL;           /* external file descriptor */
     extinfo_t *info    = NULL;                 /* special element information */
     atom_t     data_id = FAIL;                 /* dd ID of existing regular element */
     int32      data_len;                       /* length of the data we are checking */
@@ -264,6 +264,7 @@ HXcreate(int32 file_id, uint16 tag, uint16 ref, const char *extern_file_name, in
             HGOTO_ERROR(DFE_BADOPEN, FAIL);
     }
     free(fname);
+    fname          = NULL;  /* the error cleanup below frees fname too */
     extdir_changed = FALSE; /* set to TRUE when HXsetdir is called */
 
     /* Get a bare access record and special info structure */
@@ -346,14 +347,16 @@ HXcreate(int32 file_id, uint16 tag, uint16 ref, const char *extern_file_name, in
 
 done:
     if (ret_value == FAIL) { /* Error condition cleanup */
-        if (access_rec != NULL)
-            HIrelease_accrec_node(access_rec);
         if (info != NULL) {
             free(info->extern_file_name);
             free(info);
 
             access_rec->special_info = NULL;
         }
+        if (access_rec != NULL)
+            HIrelease_accrec_node(access_rec);
+        if (!OPENERR(file_external))
+            HI_CLOSE(file_external);
         free(fname);
         if (data_id != FAIL)
             HTPendaccess(data_id);
